@@ -36,7 +36,7 @@ RULE = ('one evaluation = one seeded run: (hist) a 20-150 call Cache history wit
         'lifecycle event / the fixture was read; distinct = SHA-256 of the case')
 ASSUMPTIONS = ['a real fork() carrying an open SQLite handle is not simulated; the pid-change seam checks the library\'s reaction to it',
                'the fixture was written on POSIX by the pinned release (fixtures/make_fixture.py)']
-PROBES = ('lifecycle', 'fork', 'thread_stretch', 'pickle', 'fixture_items', 'newproc')
+PROBES = ('lifecycle', 'fork', 'thread_stretch', 'pickle', 'fixture_items', 'newproc', 'move')
 TECHNIQUE = 'deterministic simulation (simulated processes, pid seam, thread tasks, virtual clock) + model-based checking across lifecycle events; golden-directory regression of the released on-disk format'
 LEVEL_TEXT = ('seeded exploration of histories with lifecycle events under the simulator (process identity and threads are simulated, so '
               'fork and cross-process sharing are replayable), each call compared with the reference model through whichever handle is '
@@ -95,7 +95,7 @@ def gen_case(seed, tier):
         if op['op'] == 'stats':
             continue
         if rng.random() < 0.12:
-            ev = rng.choice(('reopen', 'newproc', 'pickle', 'fork', 'unfork', 'thread'))
+            ev = rng.choice(('reopen', 'newproc', 'pickle', 'fork', 'unfork', 'thread', 'move'))
             out.append({'op': 'life', 'ev': ev, 'n': rng.randint(1, 4)})
         out.append(op)
     return {'seed': seed, 'cfg': {'kind': 'hist', 'settings': settings, 'disk': disk}, 'prog': out}
@@ -171,6 +171,17 @@ def run_hist(case):
                     if type(cache.disk) is not disk_cls:
                         violations.append({'rule': 'C18/disk-class-lost', 'sig': 'pickle', 'detail': type(cache.disk).__name__})
                     check_settings(cache, settings, violations, 'after unpickling')
+                elif ev == 'move':
+                    # the directory is self-contained: renamed (backup restore, remount) it must read back the same
+                    cache.close()
+                    raw.close()
+                    new_path = path + 'm'
+                    os.rename(path, new_path)
+                    path = new_path
+                    cache = dc.Cache(path, disk=disk_cls)
+                    raw = RawView(path)
+                    probes['move'] = probes.get('move', 0) + 1
+                    check_settings(cache, settings, violations, 'after moving the directory')
                 elif ev == 'fork':
                     sim.harness_proc.pid = base_pid + 1000      # same object, the process id changed under it
                     probes['fork'] = probes.get('fork', 0) + 1
